@@ -37,6 +37,14 @@ static Poly pmul(const Poly &a, const Poly &b) {
 }
 static Poly pconst(Q c) { Poly p; if (!c.zero()) p[Mono()] = c; return p; }
 
+int Normaliser::polyAtom(const char *kind, const Poly &p, int rep, int bytes) {
+  std::string key = kind; key += ":"; key += polyStr(p, 1u << 30);
+  auto it = polyAtoms.find(key);
+  if (it != polyAtoms.end()) return it->second;
+  // the representative argument term keeps the atom evaluable; equal polynomials share one atom
+  int t = TT.mk(std::string(kind) == "invpoly" ? "inv" : "sqrt", {rep}, 0, bytes);
+  polyAtoms[key] = t; return t;
+}
 Poly Normaliser::atom(int t) { atoms++; Poly p; p[Mono{{t, 1}}] = Q(1); return p; }
 
 static bool isSignMask(const Term &c, int bytes) { return c.op == TT.OP_C && ((bytes == 4 && (int32_t)c.k == INT32_MIN) || (bytes == 8 && c.k == INT64_MIN)); }
@@ -74,8 +82,8 @@ Poly Normaliser::norm(int t, bool fp) {
   else if (x.op == TT.OP_FDIV && fp) {
     Poly nb = A(1);
     if (nb.size() == 1) { Mono inv; for (auto &ve : nb.begin()->first) inv.push_back({ve.first, -ve.second}); Poly ip; Q c = nb.begin()->second; ip[inv] = Q(c.d, c.n); r = pmul(A(0), ip); }
-    else { // a / b with a non-monomial divisor: a * Inv(b) with the opaque atom Inv(b)
-      int inv = TT.mk("inv", {x.a[1]}, 0, x.bytes); r = pmul(A(0), atom(inv));
+    else { // a / b with a non-monomial divisor: a * Inv(b), the atom keyed by the canonical polynomial of b
+      r = pmul(A(0), atom(polyAtom("invpoly", nb, x.a[1], x.bytes)));
     }
   }
   else if (x.op == TT.OP_SQRT && fp) {
@@ -88,7 +96,7 @@ Poly Normaliser::norm(int t, bool fp) {
       for (auto &ve : na.begin()->first) { if (ve.second % 2) ok = false; const Term &vt = TT.t[ve.first]; if (!(vt.op == TT.OP_SYM && TT.ns[vt.a[0]].positive) && (ve.second / 2) % 2) ok = false; h.push_back({ve.first, ve.second / 2}); }
       if (ok) r[h] = Q(rn, rd);
     }
-    if (!ok) r = atom(t);
+    if (!ok) r = atom(polyAtom("sqrtpoly", na, x.a[0], x.bytes));
   }
   else if (x.op == TT.OP_SELECT) {
     // NaN guards (libstdc++'s complex multiply/divide fallback) are resolved under the stated assumption "no NaN"
